@@ -32,6 +32,8 @@ func main() {
 		if !res.OK {
 			os.Exit(1)
 		}
+	case "dump":
+		os.Exit(dumpMain(os.Args[2:]))
 	default:
 		os.Exit(runProp(os.Args[1], os.Args[2:]))
 	}
